@@ -423,8 +423,14 @@ func (i *interpreter) symIndex(fr *frame, elems []value, idx sym) value {
 	}
 	k := kindOf(elems[0])
 	// an index that is a function of one input byte can only hit ≤256 slots:
-	// select among those instead of the whole (possibly huge) table
-	if v := i.singleVar(ix); v != nil && len(elems) > 48 {
+	// select among those instead of the whole (possibly huge) table — used when
+	// the table has many distinct runs (denco's double array), not for small
+	// classification tables whose run-wise ite-chain is shorter
+	tryCand := func() (value, bool) {
+		v := i.singleVar(ix)
+		if v == nil {
+			return nil, false
+		}
 		d := i.p.dom[v]
 		env := map[string]uint64{}
 		seen := map[uint64]bool{}
@@ -439,13 +445,19 @@ func (i *interpreter) symIndex(fr *frame, elems []value, idx sym) value {
 				cand = append(cand, kx)
 			}
 		}
-		if len(cand) > 0 {
-			sort.Slice(cand, func(a, b int) bool { return cand[a] < cand[b] })
-			res := i.termOf(elems[cand[len(cand)-1]])
-			for r := len(cand) - 2; r >= 0; r-- {
-				res = tb.Ite(tb.Eq(ix, tb.BV(cand[r], 64)), i.termOf(elems[cand[r]]), res)
-			}
-			return i.mkVal(k, res)
+		if len(cand) == 0 {
+			return nil, false
+		}
+		sort.Slice(cand, func(a, b int) bool { return cand[a] < cand[b] })
+		res := i.termOf(elems[cand[len(cand)-1]])
+		for r := len(cand) - 2; r >= 0; r-- {
+			res = tb.Ite(tb.Eq(ix, tb.BV(cand[r], 64)), i.termOf(elems[cand[r]]), res)
+		}
+		return i.mkVal(k, res), true
+	}
+	if len(elems) > 4096 {
+		if v, ok := tryCand(); ok {
+			return v
 		}
 	}
 	type run struct {
@@ -459,6 +471,11 @@ func (i *interpreter) symIndex(fr *frame, elems []value, idx sym) value {
 			runs[n-1].hi = j
 		} else {
 			runs = append(runs, run{j, j, t})
+		}
+	}
+	if len(runs) > 64 {
+		if v, ok := tryCand(); ok {
+			return v
 		}
 	}
 	res := runs[len(runs)-1].t
